@@ -14,6 +14,30 @@ PANIC_CALLS = {'unwrap', 'expect', 'remove', 'swap_remove', 'insert', 'split_at'
 ALLOC_CALLS = {'with_capacity', 'from_elem', 'reserve', 'reserve_exact', 'resize', 'resize_with'}
 
 
+TRUSTED_TYPES = ('CommonCircuitData', 'VerifierOnlyCircuitData', 'FriParams', 'FriConfig', 'StarkConfig', 'FriInstanceInfo', 'FriChallenges', 'StarkProofChallenges', 'ProofChallenges',
+                 'usize', 'bool', 'CtlCheckVars', 'FriOpenings')
+
+
+def robust_roots(fn, names):
+    """taint roots by parameter name; if a listed name is no longer a parameter (renamed), fall back to every parameter whose
+    type is not one of the trusted data types - a rename must not silence or trip the rule"""
+    from .facts import pat_binds, ty_adt
+    pn = {}
+    for p in fn.params:
+        for b in pat_binds(p):
+            pn[b['n']] = fn.types[b['t']] if b.get('t') is not None else ''
+    roots = set(names) & set(pn)
+    if set(names) - set(pn):
+        for n, t in pn.items():
+            a = ty_adt(t) or ''
+            if a in TRUSTED_TYPES or len(a) <= 1 or n == 'self' and False:
+                continue
+            if n in ('stark', 'config', 'common_data', 'params', 'instance', 'instances', 'challenges', 'verifier_data'):
+                continue
+            roots.add(n)
+    return roots
+
+
 def tainted(v, roots):
     out = []
     for a in flow.flat(v):
@@ -82,6 +106,7 @@ def run(F, ck, tier):
         if fn is None:
             ck.ob('R18.1', 'anchor:' + q, False, 'ANCHOR-MISSING: validator %s not found' % q, q)
             continue
+        roots = robust_roots(fn, roots)
         fl = flow.Flow(F, fn, inline=C.inline_all(), depth=6, track_idx=True)
         nsites += panic_sites(ck, 'R18.1', fl, fn, lambda v, r=roots: tainted(v, r), 'validator')
     # ---------------------------------------------------------------- R18.1 / R18.4 decoders
@@ -124,6 +149,7 @@ def run(F, ck, tier):
             ck.ob('R18.3', 'anchor:' + q, False, 'ANCHOR-MISSING: entry point %s (%d candidates)' % (q, len(cands)), q)
             continue
         fn = cands[0]
+        roots = robust_roots(fn, roots)
         # one level of inlining so that a wrapper delegating to the validating function is seen through
         fl = flow.Flow(F, fn, inline=C.inline_only({'verify_stark_proof_with_challenges'}) if fn.name == 'verify_stark_proof' else None, depth=1)
         vnames = {'validate_proof_with_pis_shape', 'validate_proof_shape', 'validate_fri_proof_shape', 'validate_batch_fri_proof_shape', 'validate_compressed_proof_with_pis_shape', 'validate_compressed_proof_shape'}
